@@ -1438,6 +1438,24 @@ def nd_dual_threshold(E, args, node):
 @libfn('numpy.append')
 def np_append(E, args, node):
     a, b = args.pos[0], args.pos[1]
+    if isinstance(a, Arr) and isinstance(b, (PyList, list, tuple)) and a.ndim == 1 and getattr(a, 'lead', None) is None:
+        # a 1-D array extended by the scalars of a python list
+        items = [_norm_elem(x) for x in (b.items if isinstance(b, PyList) else b)]
+        if not all(isinstance(x, (Z, X)) for x in items):
+            raise Unsupported('np.append of a list of non-scalars')
+        xr = a.ty == XR or any(isinstance(x, X) for x in items)
+        ty = XR if xr else (REAL if (a.ty == REAL or any(isinstance(x, Z) and x.ty == REAL for x in items)) else a.ty)
+        conv = (lambda e: xops.to_x(e)) if xr else ((lambda e: Z(to_real(e), REAL)) if ty == REAL else (lambda e: e))
+        src = E.st.heap[a.ident]
+        n = a.n if not isinstance(a.n, int) else z3.IntVal(a.n)
+        items = [conv(x) for x in items]
+
+        def clo(i, src=src, a=a, n=n, items=items):
+            r = items[-1]
+            for k in range(len(items) - 2, -1, -1):
+                r = E.ite(i == n + k, items[k], r)
+            return E.ite(i < n, conv(src(a.off + i * a.stride)), r)
+        return E.new_arr(z3.simplify(n + len(items)), ty, clo)
     if isinstance(b, Arr) and not isinstance(a, Arr):
         e0 = _norm_elem(a)
         src = E.st.heap[b.ident]
